@@ -118,3 +118,32 @@ Example C16_cut_stream_nonvacuous :
   (* cut inside the message: the ping was delivered, the message was not *)
   dr_events (run 11%nat TFail) = [mkEv 9 [1; 2; 3; 4; 5] true false] /\ dr_err (run 11%nat TFail) = RIo EFail.
 Proof. vm_compute. repeat split; reflexivity. Qed.
+
+(* ------------------------------------------------------------------ control handlers *)
+Require Import Handler HandlerCutProofs.
+
+(* wsutil.ControlHandler.Handle on a source that ends (io.EOF or failure) BEFORE the announced
+   payload length: for either side (every state), ping / pong / close, announced length 1..125,
+   ANY bytes delivered (fewer than announced), any source ciphering, io.Copy chunking and mask
+   oracle: the handler returns the I/O error (io.EOF only when not a single payload byte came,
+   io.ErrUnexpectedEOF otherwise, the transport's error for a failing one) and NOTHING is written
+   to the destination: no pong echoing a shortened payload, no close reply. *)
+Theorem C16_handler_cut_payload : forall state unmask h avail t copy_sizes masks res d',
+  (h_op h = 8 \/ h_op h = 9 \/ h_op h = 10) ->
+  0 < Z.to_N (h_len h) -> Z.to_N (h_len h) <= 125 -> len avail < Z.to_N (h_len h) ->
+  handle state unmask h avail t copy_sizes masks (mkDest [] None) = (res, d') ->
+  res = HIoErr (match t with TFail => EFail | TEOF => if len avail =? 0 then EEOF else EUnexpected end) /\
+  dest_log d' = [].
+Proof. exact handle_cut_payload. Qed.
+Print Assumptions C16_handler_cut_payload.
+
+Example C16_handler_cut_nonvacuous :
+  handle 1 true (mkHeader true 0 9 true [1; 2; 3; 4] 5) [1; 2; 3] TEOF [2] [] (mkDest [] None)
+    = (HIoErr EUnexpected, mkDest [] None) /\
+  handle 2 false (mkHeader true 0 8 false zero_mask 2) [3] TFail [] [] (mkDest [] None)
+    = (HIoErr EFail, mkDest [] None) /\
+  handle 2 false (mkHeader true 0 10 false zero_mask 4) [] TEOF [] [] (mkDest [] None)
+    = (HIoErr EEOF, mkDest [] None) /\
+  (* with the whole payload the same ping is answered *)
+  fst (handle 1 true (mkHeader true 0 9 true [1; 2; 3; 4] 3) [1; 2; 3] TEOF [2] [] (mkDest [] None)) = HNil.
+Proof. vm_compute. repeat split; reflexivity. Qed.
